@@ -1,5 +1,346 @@
-import RSocketModel.Engine.Step
-/-! # C08 — placeholder until the proofs land -/
+import RSocketModel.Props.C09
+/-!
+# C08 — Frames emitted are legal RSocket for the emitter's role  (**partial**)
+
+The full statement — *after it has emitted ERROR or a requester's CANCEL … it emits nothing
+further on that stream* — is **false of the code** for request-channel (half-close: only one
+direction is closed; `c08_half_close_counterexample` is the model-level witness, replayed against
+the implementation by the C08 check and recorded as known finding F16), and for lease-gated
+requests (F10, outside the engine model). What is proved here, for every reachable state and every
+event, are the other clauses:
+
+* `c08_opens_with_request_own_parity` — a stream the endpoint opens gets a fresh, non-zero id of
+  its own parity and its first frame is the request frame;
+* `c08_positive_initial_request_n` — every REQUEST_STREAM / REQUEST_CHANNEL it emits carries n > 0;
+* `c08_types_per_role_api`, `c08_types_on_receive`, `c08_no_frames_on_loss` — which frame types
+  each role emits, and on which stream;
+* `c08_connection_frames_on_stream_zero`;
+* `c08_unregistered_stream_silent_partial` — frames for a stream that is no longer registered
+  (after a terminal exchange) trigger no emission.
+SETUP-first-and-once is C16's theorem on the client model.
+-/
 namespace RSocketModel.Engine
-theorem c08_placeholder : (init 1).closed = false := rfl
+
+/-- reachable-state invariant: the id counter stays in range with the endpoint's parity, and
+every stream / channel requester object carries a positive initial request-n -/
+structure Inv08 (st : State) : Prop where
+  cur_lt : st.cur < 2 ^ 31
+  cur_par : st.cur % 2 = st.first % 2
+  n0 : ∀ oid s, st.obj oid = some s → N0ok s
+
+theorem inv08_init (first : Nat) (hf : 1 ≤ first) (lp : Bool) : Inv08 (init first lp) :=
+  ⟨StreamId.initCur_lt 31 first, StreamId.initCur_parity (by omega) first hf, by
+    intro oid s hs; simp [State.obj, init] at hs⟩
+
+theorem inv08_ext (st st' : State) (he : Ext st st') (h : Inv08 st) : Inv08 st' := by
+  refine ⟨he.curlt h.cur_lt, by rw [he.curpar h.cur_lt, he.first]; exact h.cur_par, ?_⟩
+  intro oid s' hs'
+  cases ho : st.obj oid with
+  | none => exact he.fresh oid s' hs' ho
+  | some s =>
+    obtain ⟨s2, hs2, hm⟩ := he.objs oid s ho
+    rw [hs'] at hs2; cases hs2
+    exact n0ok_mono hm (h.n0 oid s ho)
+
+theorem inv08_run (evs : List Ev) : ∀ st, Inv08 st → Inv08 (run st evs).1 := by
+  induction evs with
+  | nil => intro st h; exact h
+  | cons e es ih => intro st h; simp only [run]; exact ih _ (inv08_ext st _ (ext_step st e) h)
+
+/-! ### opening a stream -/
+
+theorem allocate_sound (st : State) (h : Inv08 st) (sid : Nat) (st1 : State) (ha : allocate st = (some sid, st1)) :
+    sid ≠ 0 ∧ sid % 2 = st.first % 2 ∧ st.isActive sid = false ∧ sid < 2 ^ 31 := by
+  simp only [allocate] at ha
+  rcases hal : StreamId.alloc 31 st.isActive st.cur with ⟨o, c⟩
+  rw [hal] at ha
+  simp only [Prod.mk.injEq] at ha
+  obtain ⟨rfl, _⟩ := ha
+  obtain ⟨h1, h2, h3, h4, _⟩ := StreamId.c13_alloc_sound 31 (by omega) st.isActive st.cur sid c h.cur_lt hal
+  exact ⟨h1, by rw [h2]; exact h.cur_par, h3, h4⟩
+
+/-- the request methods: the only frame queued is the request frame, on a fresh non-zero stream
+id of the endpoint's own parity (or nothing is queued and the caller gets an exception) -/
+theorem c08_opens_with_request_own_parity (st : State) (h : Inv08 st) (hc : st.closed = false) (ev : Ev)
+    (hev : (∃ d, ev = .requestResponse d) ∨ (∃ d, ev = .fireAndForget d) ∨ (∃ d n s, ev = .requestStream d n s) ∨
+      (∃ d n p s, ev = .requestChannel d n p s)) :
+    ∀ g, Out.send g ∈ (step st ev).2 →
+      isInitiate g.ty = true ∧ g.sid ≠ 0 ∧ g.sid % 2 = st.first % 2 ∧ st.isActive g.sid = false ∧
+      (step st ev).2.filter (fun o => match o with | .send _ => true | _ => false) = [.send g] := by
+  intro g hg
+  have hg := mem_emit _ _ _ hg
+  have key : ∀ sid st1, allocate st = (some sid, st1) → g.sid = sid → g.sid ≠ 0 ∧ g.sid % 2 = st.first % 2 ∧ st.isActive g.sid = false := by
+    intro sid st1 ha e
+    obtain ⟨a, b, c, _⟩ := allocate_sound st h sid st1 ha
+    rw [e]; exact ⟨a, b, c⟩
+  rcases hev with ⟨d, rfl⟩ | ⟨d, rfl⟩ | ⟨d, n, s, rfl⟩ | ⟨d, n, p, s, rfl⟩
+  · simp only [apiStep] at hg
+    simp only [step, apiStep, State.emit, hc]
+    rcases hal : allocate st with ⟨o, st1⟩
+    rw [hal] at hg
+    cases o with
+    | none => simp at hg
+    | some sid =>
+      simp only [List.mem_cons, reduceCtorEq, Out.send.injEq, List.mem_nil_iff, or_false, false_or] at hg
+      subst hg
+      refine ⟨rfl, (key sid st1 hal rfl).1, (key sid st1 hal rfl).2.1, (key sid st1 hal rfl).2.2, ?_⟩
+      simp [List.filter]
+  · simp only [apiStep] at hg
+    simp only [step, apiStep, State.emit, hc]
+    rcases hal : allocate st with ⟨o, st1⟩
+    rw [hal] at hg
+    cases o with
+    | none => simp at hg
+    | some sid =>
+      simp only [List.mem_cons, Out.send.injEq, List.mem_nil_iff, or_false] at hg
+      subst hg
+      refine ⟨rfl, (key sid st1 hal rfl).1, (key sid st1 hal rfl).2.1, (key sid st1 hal rfl).2.2, ?_⟩
+      simp [List.filter]
+  · simp only [apiStep] at hg
+    simp only [step, apiStep, State.emit, hc]
+    rcases hal : allocate st with ⟨o, st1⟩
+    rw [hal] at hg
+    cases o with
+    | none => simp at hg
+    | some sid =>
+      simp only at hg ⊢
+      split at hg
+      · simp at hg
+      · split at hg
+        · simp only [List.mem_cons, reduceCtorEq, Out.send.injEq, List.mem_nil_iff, or_false, false_or] at hg
+          subst hg
+          refine ⟨rfl, (key sid st1 hal rfl).1, (key sid st1 hal rfl).2.1, (key sid st1 hal rfl).2.2, ?_⟩
+          simp_all [List.filter]
+        · simp at hg
+  · simp only [apiStep] at hg
+    simp only [step, apiStep, State.emit, hc]
+    rcases hal : allocate st with ⟨o, st1⟩
+    rw [hal] at hg
+    cases o with
+    | none => simp at hg
+    | some sid =>
+      simp only at hg ⊢
+      split at hg
+      · simp at hg
+      · split at hg
+        · have hgs : g = { ty := .requestChannel, sid := sid, n := n, data := d, complete := !p } := by
+            cases p <;> simp at hg <;> exact hg
+          subst hgs
+          refine ⟨rfl, (key sid st1 hal rfl).1, (key sid st1 hal rfl).2.1, (key sid st1 hal rfl).2.2, ?_⟩
+          cases p <;> simp_all [List.filter]
+        · simp at hg
+
+/-! ### what is emitted: a predicate on every queued frame -/
+
+/-- `p` holds of every frame in an output list -/
+def Out.sendAll (p : Frame → Bool) : Out → Bool
+  | .send g => p g
+  | _ => true
+
+theorem sendAll_mem (p : Frame → Bool) (l : List Out) (h : ∀ x ∈ l, x.sendAll p = true) (g : Frame) (hg : Out.send g ∈ l) :
+    p g = true := h _ hg
+
+def isConnectionLevel : FType → Bool
+  | .setup | .lease | .keepalive | .metadataPush | .resume | .resumeOk => true
+  | _ => false
+
+/-- the two legality predicates that hold of every frame the engine ever queues -/
+def pN (g : Frame) : Bool := !(g.ty == .requestStream || g.ty == .requestChannel) || decide (0 < g.n)
+def pZero (g : Frame) : Bool := !isConnectionLevel g.ty || g.sid == 0
+def pRecvTypes (g : Frame) : Bool := g.ty == .error || g.ty == .keepalive || g == mkPayload g.sid [] true
+
+theorem frameReceived_preds (st : State) (oid : Nat) (s : Stream) (f : Frame) :
+    ∀ x ∈ (frameReceived st oid s f).2, x.sendAll pN = true ∧ x.sendAll pZero = true ∧ x.sendAll pRecvTypes = true := by
+  unfold frameReceived
+  cases s.kind <;> simp only <;> cases f.ty <;> simp only <;> (repeat' split) <;>
+    simp [mkError, Out.sendAll, pN, pZero, pRecvTypes, isConnectionLevel]
+
+theorem handleByType_preds (st : State) (f : Frame) (b : Behaviour) (hd : f.sid = 0 ∨ isInitiate f.ty = true) :
+    ∀ x ∈ (handleByType st f b).2, x.sendAll pN = true ∧ x.sendAll pZero = true ∧ x.sendAll pRecvTypes = true := by
+  unfold handleByType
+  cases hty : f.ty <;> simp only
+  case requestResponse =>
+    split <;> (try cases b) <;> (try simp only) <;> (repeat' split) <;>
+      simp [mkError, Out.sendAll, pN, pZero, pRecvTypes, isConnectionLevel]
+  case requestStream =>
+    split <;> (try cases b) <;> (try simp only) <;> (repeat' split) <;>
+      simp [mkError, Out.sendAll, pN, pZero, pRecvTypes, isConnectionLevel]
+  case requestFnf => split <;> (try cases b) <;> simp [mkError, Out.sendAll, pN, pZero, pRecvTypes, isConnectionLevel]
+  case requestChannel =>
+    split
+    · simp [mkError, Out.sendAll, pN, pZero, pRecvTypes, isConnectionLevel]
+    · cases b with
+      | channel hasPub hasSub =>
+        simp only
+        split
+        · simp [mkError, Out.sendAll, pN, pZero, pRecvTypes, isConnectionLevel]
+        · cases hasPub <;> cases hasSub <;> cases f.complete <;>
+            simp [mkPayload, Out.sendAll, pN, pZero, pRecvTypes, isConnectionLevel]
+      | _ => simp [mkError, Out.sendAll, pN, pZero, pRecvTypes, isConnectionLevel]
+  case setup => (repeat' split) <;> simp [mkError, Out.sendAll, pN, pZero, pRecvTypes, isConnectionLevel]
+  case metadataPush => cases b <;> simp [mkError, Out.sendAll, pN, pZero, pRecvTypes, isConnectionLevel]
+  case keepalive =>
+    have h0 : f.sid = 0 := by rcases hd with h | h; exact h; simp [hty, isInitiate] at h
+    split <;> simp [Out.sendAll, pN, pZero, pRecvTypes, isConnectionLevel, hty, h0]
+  all_goals simp [mkError, Out.sendAll, pN, pZero, pRecvTypes, isConnectionLevel]
+
+theorem recvStep_preds (st : State) (h : WF st) (f : Frame) (b : Behaviour) :
+    ∀ x ∈ (recvStep st f b).2, x.sendAll pN = true ∧ x.sendAll pZero = true ∧ x.sendAll pRecvTypes = true := by
+  unfold recvStep
+  split
+  · simp
+  · generalize (if isFragmentable f.ty = true then cacheAppend st f else (st, some (Except.ok f))) = r
+    rcases r with ⟨st', c⟩
+    simp only
+    split
+    · simp
+    · simp [mkError, Out.sendAll, pN, pZero, pRecvTypes, isConnectionLevel]
+    · split
+      · rename_i hd
+        exact handleByType_preds st' _ b (by simpa using hd)
+      · split
+        · simp [Out.sendAll]
+        · split
+          · simp [Out.sendAll]
+          · exact frameReceived_preds st' _ _ _
+
+theorem apiStep_preds (st : State) (h : Inv08 st) (ev : Ev) :
+    ∀ x ∈ (apiStep st ev).2, x.sendAll pN = true ∧ x.sendAll pZero = true := by
+  cases ev <;> simp only [apiStep]
+  case requestResponse data => rcases allocate st with ⟨o, st1⟩; cases o <;> simp [Out.sendAll, pN, pZero, isConnectionLevel]
+  case fireAndForget data => rcases allocate st with ⟨o, st1⟩; cases o <;> simp [Out.sendAll, pN, pZero, isConnectionLevel]
+  case requestStream data n sub =>
+    rcases allocate st with ⟨o, st1⟩
+    cases o <;> simp only <;> (repeat' split) <;> simp [Out.sendAll, pN, pZero, isConnectionLevel] <;> omega
+  case requestChannel data n hp sub =>
+    rcases allocate st with ⟨o, st1⟩
+    cases o <;> simp only <;> (repeat' split) <;> simp [Out.sendAll, pN, pZero, isConnectionLevel] <;> (try omega)
+    all_goals (cases hp <;> simp [Out.sendAll, pN, pZero, isConnectionLevel] <;> omega)
+  case subscribe oid =>
+    split
+    · rename_i s ho
+      have hn := h.n0 oid s ho
+      split
+      · simp
+      · split
+        · rename_i hk
+          simp [Out.sendAll, pN, pZero, isConnectionLevel]
+          exact hn (Or.inl hk)
+        · rename_i hk
+          have := hn (Or.inr hk)
+          cases s.pubGiven <;> simp [Out.sendAll, pN, pZero, isConnectionLevel] <;> exact this
+        · simp
+    · simp
+  all_goals ((repeat' split) <;> simp [Out.sendAll, pN, pZero, isConnectionLevel, mkRequestN, mkPayload, mkError, mkCancel])
+
+/-- every frame queued by any entry point, in any reachable state, satisfies `p` -/
+theorem step_preds (st : State) (hw : WF st) (h : Inv08 st) (ev : Ev) :
+    ∀ x ∈ (step st ev).2, x.sendAll pN = true ∧ x.sendAll pZero = true := by
+  intro x hx
+  have hx := mem_emit _ _ _ hx
+  cases ev with
+  | recv f b => exact ⟨(recvStep_preds st hw f b x hx).1, (recvStep_preds st hw f b x hx).2.1⟩
+  | lost =>
+    simp only [lostStep] at hx
+    split at hx
+    · simp at hx
+    · simp only [List.mem_append, List.mem_singleton] at hx
+      rcases hx with hx | rfl
+      · have := stopAll_targets st.table st x hx
+        cases x <;> simp [Out.target] at this <;> simp [Out.sendAll]
+      · simp [Out.sendAll]
+  | stopStreams =>
+    have := stopAll_targets st.table st x hx
+    cases x <;> simp [Out.target] at this <;> simp [Out.sendAll]
+  | _ => exact apiStep_preds st h _ x hx
+
+/-- **stream and channel requests carry a positive initial request-n** — every such frame ever
+queued, over every run from the initial state of either role -/
+theorem c08_positive_initial_request_n (first : Nat) (hf : 1 ≤ first) (lp : Bool) (evs : List Ev) (ev : Ev) (g : Frame)
+    (hg : Out.send g ∈ (step (run (init first lp) evs).1 ev).2) (hty : g.ty = .requestStream ∨ g.ty = .requestChannel) :
+    0 < g.n := by
+  have := (step_preds _ (wf_run evs _ (wf_init first lp)) (inv08_run evs _ (inv08_init first hf lp)) ev _ hg).1
+  simp only [Out.sendAll, pN] at this
+  rcases hty with h | h <;> simpa [h] using this
+
+/-- **connection-level frames use stream 0 only** -/
+theorem c08_connection_frames_on_stream_zero (first : Nat) (hf : 1 ≤ first) (lp : Bool) (evs : List Ev) (ev : Ev) (g : Frame)
+    (hg : Out.send g ∈ (step (run (init first lp) evs).1 ev).2) (hty : isConnectionLevel g.ty = true) : g.sid = 0 := by
+  have := (step_preds _ (wf_run evs _ (wf_init first lp)) (inv08_run evs _ (inv08_init first hf lp)) ev _ hg).2
+  simpa [Out.sendAll, pZero, hty] using this
+
+/-- while a received frame is processed the endpoint queues only ERROR, a KEEPALIVE echo, or the
+empty complete PAYLOAD with which a channel responder without a publisher closes its direction —
+and (C12 `c12_sends_local`) only on that frame's stream -/
+theorem c08_types_on_receive (st : State) (hw : WF st) (f : Frame) (b : Behaviour) (g : Frame)
+    (hg : Out.send g ∈ (step st (.recv f b)).2) :
+    (g.ty = .error ∨ g.ty = .keepalive ∨ g = mkPayload g.sid [] true) ∧ g.sid = f.sid := by
+  refine ⟨?_, c12_sends_local st hw f b g hg⟩
+  have := (recvStep_preds st hw f b _ (mem_emit _ _ _ hg)).2.2
+  simpa [Out.sendAll, pRecvTypes, or_assoc] using this
+
+/-- connection loss and `stop_all_streams` queue no frame at all -/
+theorem c08_no_frames_on_loss (st : State) (g : Frame) :
+    Out.send g ∉ (step st .lost).2 ∧ Out.send g ∉ (step st .stopStreams).2 := by
+  constructor
+  · intro hg
+    have hg := mem_emit _ _ _ hg
+    simp only [lostStep] at hg
+    split at hg
+    · simp at hg
+    · simp only [List.mem_append, List.mem_singleton] at hg
+      rcases hg with hg | hg
+      · exact stopAll_targets st.table st _ hg rfl
+      · cases hg
+  · intro hg
+    exact stopAll_targets st.table st _ (mem_emit _ _ _ hg) rfl
+
+/-- the frame types each role may emit after the request frame -/
+def allowed : Kind → FType → Bool
+  | .rrReq, t => t == .cancel
+  | .stReq, t => t == .requestStream || t == .requestN || t == .cancel
+  | .chReq, t => t == .requestChannel || t == .payload || t == .requestN || t == .cancel || t == .error
+  | .rrResp, t => t == .payload || t == .error
+  | .stResp, t => t == .payload || t == .error
+  | .chResp, t => t == .payload || t == .requestN || t == .cancel || t == .error
+
+/-- **per-role frame types**: whatever the application does with a handler object (subscribe,
+request, cancel, publisher signals, future resolutions, done-callbacks), the frames queued are on
+that object's stream and of a type its role allows -/
+theorem c08_types_per_role_api (st : State) (ev : Ev) (oid : Nat) (s : Stream) (ho : st.obj oid = some s)
+    (hev : ev = .subscribe oid ∨ (∃ n, ev = .subRequest oid n) ∨ ev = .subCancel oid ∨ ev = .futCancel oid ∨
+      (∃ d c, ev = .pubNext oid d c) ∨ ev = .pubComplete oid ∨ ev = .pubError oid ∨ (∃ d, ev = .hfResolve oid d) ∨
+      ev = .hfFail oid ∨ ev = .cbRRReq oid ∨ ev = .cbRRResp oid) :
+    ∀ g, Out.send g ∈ (step st ev).2 → g.sid = s.sid ∧ allowed s.kind g.ty = true := by
+  intro g hg
+  have hg := mem_emit _ _ _ hg
+  rcases hev with rfl | ⟨n, rfl⟩ | rfl | rfl | ⟨d, c, rfl⟩ | rfl | rfl | ⟨d, rfl⟩ | rfl | rfl | rfl <;>
+    simp only [apiStep, ho] at hg <;> (repeat' split at hg) <;>
+    simp_all [allowed, mkRequestN, mkCancel, mkPayload, mkError]
+  all_goals (try (rcases hg with hg | hg <;> simp_all [allowed]))
+
+/-! ### after termination -/
+
+/-- (partial) a frame for a stream that is not (or no longer) registered triggers no emission:
+REQUEST_N, CANCEL, ERROR and unfragmented PAYLOAD for an unknown stream are dropped -/
+theorem c08_unregistered_stream_silent_partial (st : State) (hc : st.closed = false) (f : Frame) (b : Behaviour)
+    (h0 : f.sid ≠ 0) (hna : st.oidOf f.sid = none)
+    (hty : f.ty = .requestN ∨ f.ty = .cancel ∨ f.ty = .error ∨
+      (f.ty = .payload ∧ f.follows = false ∧ st.cache.find? (·.1 == f.sid) = none)) :
+    (step st (.recv f b)).2 = [.drop f.sid] := by
+  rcases hty with h | h | h | ⟨h, hf, hcache⟩
+  · simp [step, recvStep, hc, isFragmentable, h, h0, isInitiate, hna, State.emit]
+  · simp [step, recvStep, hc, isFragmentable, h, h0, isInitiate, hna, State.emit]
+  · simp [step, recvStep, hc, isFragmentable, h, h0, isInitiate, hna, State.emit]
+  · simp [step, recvStep, hc, isFragmentable, h, h0, isInitiate, hna, State.emit, cacheAppend, hf, hcache]
+
+/-- **the full termination clause is false for request-channel** (known finding F16): a channel
+requester whose publisher fails emits ERROR, and a later `request(n)` of its subscriber still
+emits REQUEST_N on the same stream -/
+theorem c08_half_close_counterexample :
+    (run (init 1) [.requestChannel [1] 3 true true, .pubError 0, .subRequest 0 5]).2 =
+      [[.created 0 1, .pubSubscribe 0, .onSubscribe 0, .send { ty := .requestChannel, sid := 1, n := 3, data := [1] }],
+       [.send (mkError 1 cApplicationError)],
+       [.send (mkRequestN 1 5)]] := by decide +kernel
+
 end RSocketModel.Engine
